@@ -51,7 +51,9 @@ fn tuple(fields: &[&Val], fixed: bool, align: usize, e: Endian) -> Vec<u8> {
         }
     }
     if fixed {
-        pad_to(&mut buf, align);
+        if !crate::sig::gv_quirks().1 {
+            pad_to(&mut buf, align);
+        }
     } else {
         offs.reverse();
         put_offsets(&mut buf, &offs);
@@ -64,6 +66,7 @@ fn tuple(fields: &[&Val], fixed: bool, align: usize, e: Endian) -> Vec<u8> {
 pub fn serialize(v: &Val, e: Endian) -> Vec<u8> {
     match v {
         Val::Y(x) => vec![*x],
+        Val::B(x) if crate::sig::gv_quirks().0 => e.u32(*x as u32).to_vec(),
         Val::B(x) => vec![*x as u8],
         Val::N(x) => e.u16(*x as u16).to_vec(),
         Val::Q(x) => e.u16(*x).to_vec(),
@@ -97,6 +100,9 @@ pub fn serialize(v: &Val, e: Endian) -> Vec<u8> {
             let mut buf = Vec::new();
             if es.fixed_size_gv().is_some() {
                 for x in xs {
+                    // (a no-op per the specification, where a fixed size is a multiple of the alignment; under the
+                    // not-padded quirk model the next element is aligned instead)
+                    pad_to(&mut buf, es.align_gv());
                     buf.extend_from_slice(&serialize(x, e));
                 }
             } else {
